@@ -308,4 +308,5 @@ def _rows_match(lines, items, cols, widths, plus, W):
 
 
 def render(table):
-    return table.ch_text(no_color=True).plain_text()
+    # the real no-colour output (str), not plain_text(): leaked escape sequences must show
+    return str(table.ch_text(no_color=True))
